@@ -29,6 +29,99 @@ def history(rng, s, length):
     return ops
 
 
+def balanced(L):
+    """all dot-parens strings of length L (every bracket matched)"""
+    if L == 0:
+        return [""]
+    out = ["." + r for r in balanced(L - 1)]
+    for k in range(L - 1):
+        out += ["(" + a + ")" + b for a in balanced(k) for b in balanced(L - 2 - k)]
+    return out
+
+
+def with_breaks(flat, lengths):
+    out, k = [], 0
+    for l in lengths:
+        out.append(flat[k:k + l]); k += l
+    return "+".join(out)
+
+
+def random_balanced(rng, L):
+    out, open_ = [], []
+    for i in range(L):
+        k = rng.random()
+        if k < 0.35:
+            open_.append(i); out.append("(")
+        elif k < 0.7 and open_:
+            open_.pop(); out.append(")")
+        else:
+            out.append(".")
+    for i in open_:
+        out[i] = "."
+    return "".join(out)
+
+
+UNITS = [([1], 2), ([1], 3), ([1], 4), ([2], 2), ([2], 3), ([3], 2), ([1, 1], 2), ([1, 2], 2), ([2, 1], 2)]
+NAMES4 = ("a", "b", "a*", "b*")
+
+
+def unit_names(rng, unit, distinct=True):
+    """names of one period of the strand order; the strands of one period differ from each other when `distinct`"""
+    while True:
+        strands = [[rng.choice(NAMES4) for _ in range(l)] for l in unit]
+        if not distinct or len({tuple(x) for x in strands}) == len(strands):
+            return strands
+
+
+def periodic_seq(strands, k):
+    seq = []
+    for _ in range(k):
+        for x in strands:
+            seq += (["+"] if seq else []) + list(x)
+    return seq
+
+
+def periodic_histories(rng, quick):
+    """complexes whose strand order is periodic (homo-dimers, -trimers, A+B+A+B): a turn by one period leaves the sequence as
+    it is and changes the structure, so data derived from the sequence and data derived from the structure go out of date
+    independently.  Every balanced structure over the layout; each lazily computed view is populated before the assignment and
+    all of them are read after it.  The dual (structure invariant under the turn, sequence not) is the same layout with
+    unrelated names."""
+    lazy = ["exterior_domains", "enclosed_domains", "pair_table", "strand_table", "rotate_pt", "is_connected"]
+    after = [["exterior_domains"], ["enclosed_domains"], ["pair_table"], ["strand_table"], ["kernel_string"]]
+    reqs = []
+    for unit, k in UNITS:
+        lengths = unit * k
+        n, p = len(lengths), len(unit)
+        for flat in balanced(sum(lengths)):
+            s = with_breaks(flat, lengths)
+            for variant in range(2):
+                if variant == 0:
+                    sq = periodic_seq(unit_names(rng, unit), k)
+                elif quick and rng.random() < 0.5:
+                    continue
+                else:
+                    sq = gs.seq_for(rng, s, names=("a", "b"), complementary=rng.random() < 0.5)
+                firsts = [[[q]] for q in lazy] + [[], [["exterior_domains"], ["pair_table"], ["strand_table"]]]
+                if quick:
+                    firsts = rng.sample(firsts, 2)
+                for first in firsts:
+                    v = rng.choice([p, -p, 1, n - 1, n + p])
+                    loc = [rng.randrange(0, n), rng.randrange(0, max(unit))]
+                    ops = first + [["set_turns", v]] + after + [["get_paired_loc", loc], ["get_loop_index", loc]]
+                    if rng.random() < 0.5:      # a second assignment after everything has been populated in the new rotation
+                        ops += [["set_turns", rng.choice([0, p, 1, -1])]] + rng.sample(after, 3) + [["get_paired_loc", loc]]
+                    reqs.append(("c03_history", [sq, list(s), ops]))
+    # larger periodic complexes with random histories
+    for _ in range(300 if quick else 6000):
+        unit = [rng.randrange(1, 5) for _ in range(rng.choice([1, 1, 2, 3]))]
+        k = rng.choice([2, 2, 3, 4])
+        s = with_breaks(random_balanced(rng, sum(unit) * k), unit * k)
+        sq = periodic_seq(unit_names(rng, unit, distinct=False), k)
+        reqs.append(("c03_history", [sq, list(s), history(rng, s, rng.randrange(2, 9))]))
+    return reqs
+
+
 def oracle(seq, st, ops, obs):
     """views recomputed from the rotation the complex must currently be in"""
     rots = gen_pil.rotations(seq, st)
@@ -153,6 +246,13 @@ def run(ctx):
             if isinstance(r, Err) or r:
                 found.append({"key": {"seq": rq[1][0], "struct": "".join(rq[1][1]), "ops": rq[1][2]}, "input": rq[1],
                               "what": str(r), "snippet": f"# harness op c03_fresh_compare {rq[1]!r} (harness/impl/views.py)"})
+        # periodic strand orders (identical strands): sequence and structure change independently under a turn
+        preqs = periodic_histories(rng, quick)
+        diffs += correspond(ctx, "view-histories-periodic", preqs)
+        for rq, r in zip(preqs, run_impl([("c03_fresh_compare", q[1]) for q in preqs])):
+            if isinstance(r, Err) or r:
+                found.append({"key": {"seq": rq[1][0], "struct": "".join(rq[1][1]), "ops": rq[1][2]}, "input": rq[1],
+                              "what": str(r), "snippet": f"# harness op c03_fresh_compare {rq[1]!r} (harness/impl/views.py)"})
         impl = run_impl(reqs[:3000])
         for rq, r in zip(reqs[:3000], impl):
             if isinstance(r, Err):
@@ -177,8 +277,12 @@ def replay(data):
     inp = data.get("input")
     if not inp:
         print(json.dumps(data.get("broken_links"))[:2000]); return 1
+    if isinstance(inp, dict):
+        inp = inp.get("history")
     r = run_impl([("c03_history", inp)])[0]
     print(r)
     w = None if isinstance(r, Err) else oracle(inp[0], inp[1], inp[2], r)
     print(w)
-    return 1 if w else 0
+    d = run_impl([("c03_fresh_compare", inp)])[0]      # the direct statement: every view equals that of a fresh complex
+    print(d)
+    return 1 if (w or d) else 0
